@@ -16,34 +16,36 @@
 (***************************************************************************)
 EXTENDS Names, Json, IOUtils
 
-Data == JsonDeserialize(IOEnv.JUDGE_FILE)
-NFix == Len(Data.fix)
-NRen == Len(Data.ren)
+\* An operator WITH a parameter: TLC evaluates zero-arity constant definitions once per worker at start-up
+\* (measured: the file was opened once per worker), which multiplies parse time and memory.  Load is only
+\* called from Init (LET-bound, one evaluation, main thread).
+Load(f) == JsonDeserialize(f)
 
-VARIABLES part, idx, done, rep
-vars == <<part, idx, done, rep>>
+\* The input record travels in the state (inp), so that only the initial-state computation touches the file.
+VARIABLES part, idx, inp, done, rep
+vars == <<part, idx, inp, done, rep>>
 
-Init == /\ \/ part = "fix" /\ idx \in 1..NFix
-           \/ part = "ren" /\ idx \in 1..NRen
+Init == LET D == Load(IOEnv.JUDGE_FILE) IN
+        /\ \/ \E i \in 1..Len(D.fix) : part = "fix" /\ idx = i /\ inp = <<D.structs[D.fix[i][1]], D.fix[i]>>
+           \/ \E i \in 1..Len(D.ren) : part = "ren" /\ idx = i /\ inp = <<0, D.ren[i]>>
         /\ done = FALSE
         /\ rep = <<>>
 
-InstOf(o) == Data.structs[o[1]] @@ [vname |-> o[2].vname, nname |-> o[2].nname]
-
-JudgeFix(o) ==
-  LET I == InstOf(o)
+JudgeFix(S, o) ==
+  LET I == S @@ [vname |-> o[2].vname, nname |-> o[2].nname]
       b == FBroken(I, o[2], o[3])
-      r == FResult(FRun(I))
-      cf == IF o[4] THEN r.out = o[3].out /\ r.vname = o[3].vname /\ r.nname = o[3].nname /\ r.keys = o[3].keys
+      cf == IF o[4]
+            THEN LET r == FResult(FRun(I)) IN
+                 r.out = o[3].out /\ r.vname = o[3].vname /\ r.nname = o[3].nname /\ r.keys = o[3].keys
             ELSE TRUE
   IN <<"F", idx, b, cf>>
 
 JudgeRen(o) == <<"R", idx, RAllOrNothing(o[1], o[2], o[3], o[4])>>
 
 Next == /\ ~done
-        /\ rep' = IF part = "fix" THEN JudgeFix(Data.fix[idx]) ELSE JudgeRen(Data.ren[idx])
+        /\ rep' = IF part = "fix" THEN JudgeFix(inp[1], inp[2]) ELSE JudgeRen(inp[2])
         /\ done' = TRUE
-        /\ UNCHANGED <<part, idx>>
+        /\ UNCHANGED <<part, idx, inp>>
 
 Spec == Init /\ [][Next]_vars
 Report == done => PrintT(ToJson(rep))
